@@ -424,6 +424,12 @@ def registry():
     reg["C15"].components_stub = reg["C15"].components_stub + LIFE_STUB
     reg["C11"].batches += [L.ApiEpisodes("api-reload", 2500, 40000, isa="riscv", flavour="reload"),
                            M.InstructionCacheWalks("icache-walk", 30000, 450000)]
+    reg["C03"].batches += [L.CacheOnOffTexts("asm-onoff", 6000, 100000)]
+    reg["C03"].rule += (" lifesim batch asm-onoff: generated assembler texts (data segments, strings, label and offset accesses, "
+                        "print-string ecalls) loaded through the real assembler into a simulation without and one with the data "
+                        "cache; same load outcome, termination, fault, registers, output and exit code; a text whose uncached run "
+                        "performs a word-crossing access must be rejected with the cache on.")
+    reg["C03"].components_real = reg["C03"].components_real + LIFE_REAL[:3]
     reg["C09"].batches += [L.ApiEpisodes("api-dcache-loads", 1200, 20000, isa="riscv", flavour="loads", force={"dc": {"enable": True}})]
     reg["C09"].components_real = reg["C09"].components_real + LIFE_REAL[:3]
     reg["C11"].components_real = reg["C11"].components_real + LIFE_REAL[:2]
